@@ -3,7 +3,7 @@ NEXT Next
 CONSTANTS
   Batches <- MCBatchesSmall
   GetStrs <- MCGetStrs
-  Nows = {10, 11, 20}
+  Nows = {10, 20}
   MaxSizes = {40, 105}
   TTLs = {0, 5}
   Counts = {1, 3}
